@@ -283,11 +283,53 @@ func ReachableReturnsWithout(fn *ssa.Function, rets []*ssa.Return, removed []Ctr
 		return false
 	}
 	reach := Reach([]*ssa.BasicBlock{fn.Blocks[0]}, skip)
+	idx, hasVerdict := VerdictIndex(fn.Signature)
+	removedEdge := func(from, to *ssa.BasicBlock) bool {
+		all := true
+		any := false
+		for i, s := range from.Succs {
+			if s == to {
+				any = true
+				if !skip(from, i) {
+					all = false
+				}
+			}
+		}
+		return any && all
+	}
+	// mayBeTrue: the verdict v, consumed in block at, can be something other than false on a way that survives
+	// the removal (`return d, a && b` merges a constant false with b in a phi: the return itself stays reachable)
+	var mayBeTrue func(v ssa.Value, at *ssa.BasicBlock, depth int) bool
+	mayBeTrue = func(v ssa.Value, at *ssa.BasicBlock, depth int) bool {
+		if c, ok := ConstBool(v); ok {
+			return c && reach[at]
+		}
+		phi, ok := v.(*ssa.Phi)
+		if !ok || depth > 6 {
+			return reach[at]
+		}
+		for i, e := range phi.Edges {
+			p := phi.Block().Preds[i]
+			if !reach[p] || removedEdge(p, phi.Block()) {
+				continue
+			}
+			if mayBeTrue(e, p, depth+1) {
+				return true
+			}
+		}
+		return false
+	}
 	var out []*ssa.Return
 	for _, r := range rets {
-		if reach[r.Block()] {
-			out = append(out, r)
+		if !reach[r.Block()] {
+			continue
 		}
+		if hasVerdict && idx < len(r.Results) {
+			if _, isPhi := r.Results[idx].(*ssa.Phi); isPhi && !mayBeTrue(r.Results[idx], r.Block(), 0) {
+				continue
+			}
+		}
+		out = append(out, r)
 	}
 	return out
 }
